@@ -14,7 +14,8 @@ SPEC = {
         ('K-first', 'first', '^(inv:|fields:no-pred)'),
         ('K-update', 'update', '^(inv:|update:slot-complete\\[(obs|obs_ne|length|prev)\\])'),
         ('K-upsert(filing)', 'upsert', '^upsert:'),
-        ('K-prune(frame)', 'prune', 'prune:(delayed-frame|scores-and-stop|loop-.*untouched)')],
+        ('K-prune(frame)', 'prune', 'prune:(delayed-frame|scores-and-stop|loop-.*untouched)'),
+        ("non-emitting search files candidates under their own key in (column, depth)", 'ne_inner', r'^(file:|ne-inner:(layer|nothing))')],
     'bounded': [
         ('well-formed-after-histories', suites.case_C09, 1500, 25000, RULE + '; ' + 'non-trivial = history of >= 2 operations (match, extend, widen, continue_with_distance after an early stop)', 'histories <= 4 operations')],
 }
